@@ -9,6 +9,7 @@ in the Lean model (driver op `pcase`).
  * family `live` — real TLS on loopback: a scripted upstream and decoy servers log every connection
    and request line;
  * family `conc` — several requests in flight at once through one router;
+ * family `overlap` — the same over real loopback TLS (echoing upstream + decoys), a fresh deployment per case;
  * family `seq`  — sequences of requests through one long-lived deployment whose upstream also answers with redirects
    (30/31 to other servers, to other paths of itself), the same URLs being asked again later.
 """
@@ -43,7 +44,8 @@ ASSUMPTIONS = [
     "the direct oracle computes host/port/path/query with urllib.parse.urlsplit, independently of nauyaca.utils.url",
     "family seq runs a sequence of requests through one fresh deployment per case (the recorder answers the connection of step k with the status/meta the case names for step k, "
     "2x bodies echo the request line; connections to any other host:port are answered by a decoy page): the model treats every request independently (driver op pcasen), which is the claim being checked",
-    "family conc runs several requests concurrently through one handler (asyncio.gather; the recorder answers each connection after 1-30 ms with an echo of the request line): the model treats every request independently (driver op pcasen), which is exactly the claim being checked; identical URLs asked by m clients may be fetched between 1 and m times",
+    "family overlap: several requests in flight through one fresh router/ProxyHandler over real loopback TLS sockets; the upstream answers each connection after 1-25 ms with an echo of the request line it read; the upstream is 127.0.0.1 or localhost on a port chosen at run time",
+    "family conc runs several requests concurrently through one handler (asyncio.gather; the recorder brings each connection up after 0-15 ms - the protocol factory is called only then, as in asyncio's create_connection - and answers it after 1-30 ms with an echo of the request line): the model treats every request independently (driver op pcasen), which is exactly the claim being checked; identical URLs asked by m clients may be fetched between 1 and m times",
 ]
 LEVEL_TEXT = "proof"
 LEVEL_NOTE = ("URL construction, prefix stripping, routing order and the upstream round trip are proved over the models for every path/query/configuration "
@@ -484,12 +486,19 @@ class Concurrent(_Base):
             return
         self._init_common()
         self._delays = [0.01]
+        self._connect = [0.0]
+
+        def index(rec):
+            return next(i for i, r in enumerate(self.inter.records) if r is rec)
 
         def responder(rec):
-            k = len(self.inter.records) - 1
-            return self._delays[k % len(self._delays)], b"20 text/plain\r\n" + rec.get("written", b"")
+            return self._delays[index(rec) % len(self._delays)], b"20 text/plain\r\n" + rec.get("written", b"")
 
-        self.inter = U.Interposer(self.loop, responder=responder)
+        def connector(rec):
+            # the k-th connection attempt of the case takes connect[k] ms to come up (0: up at the next loop iteration)
+            return self._connect[index(rec) % len(self._connect)]
+
+        self.inter = U.Interposer(self.loop, responder=responder, connector=connector)
         self._ready = True
 
     def gen(self, rng: random.Random, n: int):
@@ -502,6 +511,12 @@ class Concurrent(_Base):
             {"locs": [api, base], "reqs": [["gemini://front.example/api/x?q", 0], ["gemini://front.example/x?q", 0], ["gemini://front.example/apix?q", 0]], "delays": [10, 3]},
             {"locs": [base], "reqs": [["gemini://front.example/p?%s" % i, i] for i in range(6)], "delays": [30, 1, 12]},
             {"locs": [api], "reqs": [["gemini://front.example/api/a?x", 0], ["gemini://front.example/api/a?y", 40]], "delays": [5]},   # not overlapping
+            # connections that take time to come up ("connect": ms per connection attempt, in the order the attempts are made):
+            # a second request arrives while the first is still connecting; the later one is up first; all connect together
+            {"locs": [api], "reqs": [["gemini://front.example/api/search?cats", 0], ["gemini://front.example/api/search?dogs", 2]], "delays": [5], "connect": [8]},
+            {"locs": [api], "reqs": [["gemini://front.example/api/inbox?alice", 0], ["gemini://front.example/api/inbox?bob", 1]], "delays": [3], "connect": [12, 1]},
+            {"locs": [base], "reqs": [["gemini://front.example/p/%s?t=%s" % (i, i), 0] for i in range(4)], "delays": [2, 9], "connect": [0]},
+            {"locs": [api, base], "reqs": [["gemini://front.example/api/x?q", 0], ["gemini://front.example/x?q", 1], ["gemini://front.example/api/x", 3]], "delays": [4], "connect": [6, 2, 0]},
         ]
         cnt = 0
         for c in self.share(det):
@@ -531,7 +546,8 @@ class Concurrent(_Base):
                     reqs.append([reqs[rng.randrange(len(reqs))][0], rng.choice([0, 0, 1, 3])])   # the very same URL again
                 else:
                     reqs.append(["gemini://" + rng.choice(["front.example", "front.example:1966", "decoy.example:7070"]) + path + q, rng.choice([0, 0, 0, 1, 2, 5, 14])])
-            yield {"locs": locs, "reqs": reqs, "delays": [rng.choice([1, 3, 6, 10]) for _ in range(rng.choice([1, 2, 3]))]}
+            yield {"locs": locs, "reqs": reqs, "delays": [rng.choice([1, 3, 6, 10]) for _ in range(rng.choice([1, 2, 3]))],
+                   "connect": [rng.choice([0, 0, 0, 1, 2, 4, 8, 15]) for _ in range(rng.choice([1, 1, 2, 3]))]}
 
     def impl(self, case):
         from nauyaca.protocol.request import GeminiRequest
@@ -539,6 +555,15 @@ class Concurrent(_Base):
         router, chosen = self._router(case["locs"])
         self.inter.records.clear()
         self._delays = [d / 1000 for d in case["delays"]]
+        self._connect = [d / 1000 for d in case.get("connect", [0])]
+        results = self.loop.run_until_complete(self._in_flight(router, chosen, case["reqs"]))
+        return {"results": results, "conns": [[r["host"], r["port"]] for r in self.inter.records],
+                "sent": [r.get("written", b"").decode("utf-8", "surrogateescape") for r in self.inter.records]}
+
+    @staticmethod
+    async def _in_flight(router, chosen, reqs):
+        """all requests of the case through one router, each started at its own time (ms), all awaited together"""
+        from nauyaca.protocol.request import GeminiRequest
 
         async def one(line, start_ms):
             if start_ms:
@@ -558,13 +583,8 @@ class Concurrent(_Base):
             body = res.body if isinstance(res.body, (bytes, bytearray)) else (res.body or "").encode("utf-8", "replace") if isinstance(res.body, str) else b""
             return ["ok", route, res.status, bytes(body).decode("utf-8", "replace")]
 
-        async def go():
-            chosen.clear()
-            return await asyncio.gather(*[one(l, s) for l, s in case["reqs"]])
-
-        results = self.loop.run_until_complete(go())
-        return {"results": results, "conns": [[r["host"], r["port"]] for r in self.inter.records],
-                "sent": [r.get("written", b"").decode("utf-8", "surrogateescape") for r in self.inter.records]}
+        chosen.clear()
+        return await asyncio.gather(*[one(l, s) for l, s in reqs])
 
     def model(self, case):
         locs = case["locs"]
@@ -640,7 +660,139 @@ class Concurrent(_Base):
         dup = len(set(urls)) < n
         overlap = max(s for _, s in case["reqs"]) <= max(case["delays"])
         fwd = sum(1 for r in obs["results"] if r[0] == "ok" and r[2] == 20)
-        return f"n={n}:paths={min(len(paths), 3)}:dup={'y' if dup else 'n'}:overlap={'y' if overlap else 'n'}:fwd={min(fwd, 4)}"
+        cmax = max(case.get("connect", [0]))
+        overlap = overlap or max(s for _, s in case["reqs"]) <= max(case["delays"]) + cmax
+        return (f"n={n}:paths={min(len(paths), 3)}:dup={'y' if dup else 'n'}:overlap={'y' if overlap else 'n'}:"
+                f"connect={'next-iteration' if cmax == 0 else '<=4ms' if cmax <= 4 else '>4ms'}:fwd={min(fwd, 4)}")
+
+
+class Overlap(Concurrent):
+    """Real TLS on loopback: several requests in flight at once through ONE fresh deployment (router -> ProxyHandler ->
+    its GeminiClient -> real sockets).  The upstream echoes the request line it received after a scripted pause; decoy
+    servers count connections.  Every client must get the answer to its own mapped URL, the upstream must have been
+    asked exactly the mapped URLs, nobody else may be contacted.  (`$U`, `$D0`, `$D1` = ports known at run time.)"""
+    name = "overlap"
+    quick_n = 32
+    thorough_n = 900
+    parallel = False
+
+    def setup(self):
+        from ..sim import url_upstream as U
+
+        if getattr(self, "_ready", False):
+            return
+        self._init_common()
+        fam = self
+
+        class EchoUpstream(U.Upstream):
+            async def _handle(self, reader, writer):
+                task = asyncio.current_task()
+                if task is not None:
+                    self.tasks.add(task)
+                    task.add_done_callback(self.tasks.discard)
+                k = self.connections
+                self.connections += 1
+                entry = {"line": "", "peer": "loopback"}
+                self.log.append(entry)
+                try:
+                    try:
+                        data = await asyncio.wait_for(reader.readuntil(b"\r\n"), timeout=1.5)
+                    except asyncio.IncompleteReadError as e:
+                        data = e.partial
+                    except (asyncio.LimitOverrunError, asyncio.TimeoutError, TimeoutError):
+                        data = b""
+                    entry["line"] = data.hex()
+                    await asyncio.sleep(fam._delays[k % len(fam._delays)])
+                    writer.write(b"20 text/plain\r\n" + data)
+                    await writer.drain()
+                    writer.close()
+                except (ConnectionError, OSError):
+                    entry["error"] = "io"
+                except asyncio.CancelledError:
+                    writer.transport.abort()
+
+        self._delays = [0.01]
+        self.up = self.loop.run_until_complete(EchoUpstream().start())
+        self.decoys = [self.loop.run_until_complete(U.Upstream().start()) for _ in range(2)]
+        self.okscript = {"actions": [["send", b"20 text/plain\r\nDECOY".hex()], ["close"]]}
+        self._ready = True
+
+    def gen(self, rng: random.Random, n: int):
+        root = {"type": "proxy", "prefix": "/", "upstream": "gemini://127.0.0.1:$U", "strip": False}
+        api = {"type": "proxy", "prefix": "/api", "upstream": "gemini://127.0.0.1:$U/base/", "strip": True}
+        F = "gemini://front.example"
+        det = [
+            {"locs": [root], "reqs": [[F + "/alice/inbox?token=A", 0], [F + "/bob/inbox?token=B", 0], [F + "/public/index.gmi", 0], [F + "/carol;v=1/x", 0]], "delays": [5]},
+            {"locs": [api], "reqs": [[F + "/api/search?cats", 0], [F + "/api/search?dogs", 1]], "delays": [20, 2]},
+            {"locs": [api, root], "reqs": [[F + "/api/x?q", 0], [F + "/x?q", 0], [F + "/apix?q", 2], ["gemini://127.0.0.1:$D0/api/x", 2]], "delays": [3, 12]},
+            {"locs": [root], "reqs": [[F + "/p?%s" % i, 3 * i] for i in range(5)], "delays": [25, 1, 8]},
+            {"locs": [api], "reqs": [[F + "/api/a?x", 0], [F + "/api/a?y", 120]], "delays": [5]},      # one after the other
+        ]
+        cnt = 0
+        for c in self.share(det):
+            cnt += 1
+            yield c
+        ups = ["gemini://127.0.0.1:$U", "gemini://127.0.0.1:$U/", "gemini://127.0.0.1:$U/base", "gemini://localhost:$U/base/"]
+        hosts = ["front.example", "front.example:1966", "127.0.0.1:$D0", "localhost:$D1", "127.0.0.1:$U"]
+        for _ in range(max(0, n - cnt)):
+            locs = [{"type": "proxy", "prefix": rng.choice(["/", "/api", "/api/", "/a/b/"]), "upstream": rng.choice(ups), "strip": rng.random() < 0.6}]
+            if rng.random() < 0.3:
+                locs.append({"type": "proxy", "prefix": "/", "upstream": rng.choice(ups), "strip": rng.random() < 0.5})
+            paths = [path_near(rng, locs) for _ in range(2)]
+            paths = [p for p in paths if p.isascii() and " " not in p and "\\" not in p and "?" not in p] or ["/api/x"]
+            reqs = []
+            for i in range(rng.choice([2, 2, 3, 4, 6])):
+                path = paths[0] if rng.random() < 0.7 else rng.choice(paths)
+                q = rng.choice(["", "?q", "?q=%d" % i, "?%d" % i, "?a?b", "?@127.0.0.1:$D0", "?" + "z" * rng.randrange(1, 30)])
+                if i and rng.random() < 0.12:
+                    reqs.append([reqs[rng.randrange(len(reqs))][0], rng.choice([0, 1, 3])])
+                else:
+                    reqs.append(["gemini://" + rng.choice(hosts) + path + q, rng.choice([0, 0, 0, 1, 2, 5, 14, 40])])
+            yield {"locs": locs, "reqs": reqs, "delays": [rng.choice([1, 3, 6, 10, 25]) for _ in range(rng.choice([1, 2, 3]))]}
+
+    def _subst(self, s: str) -> str:
+        return s.replace("$U", str(self.up.port)).replace("$D0", str(self.decoys[0].port)).replace("$D1", str(self.decoys[1].port))
+
+    def _concrete(self, case):
+        locs = [dict(l, upstream=self._subst(l["upstream"])) if l["type"] == "proxy" else l for l in case["locs"]]
+        return {"locs": locs, "reqs": [[self._subst(l), s] for l, s in case["reqs"]], "delays": case["delays"]}
+
+    def impl(self, case):
+        c = self._concrete(case)
+        router, chosen = self._router(c["locs"], fresh=True)      # a fresh deployment (handler + its client) per case
+        self._delays = [d / 1000 for d in c["delays"]]
+        self.up.reset()
+        for d in self.decoys:
+            d.reset(self.okscript)
+
+        async def go():
+            rs = await self._in_flight(router, chosen, c["reqs"])
+            for s in [self.up] + self.decoys:
+                await s.quiesce()
+            return rs
+
+        results = self.loop.run_until_complete(go())
+        conns = [["127.0.0.1", self.up.port]] * self.up.connections + [["decoy-server", i] for i, d in enumerate(self.decoys) for _ in range(d.connections)]
+        return {"results": results, "conns": conns, "sent": [bytes.fromhex(e["line"]).decode("utf-8", "surrogateescape") for e in self.up.log],
+                "ports": {"U": self.up.port, "D0": self.decoys[0].port, "D1": self.decoys[1].port}}
+
+    def model(self, case):
+        return super().model(self._concrete(case))
+
+    def expect(self, case, out):
+        return super().expect(self._concrete(case), out)
+
+    def oracle(self, case, obs):
+        c = self._concrete(case)
+        for x in obs["conns"]:
+            if x[0] == "decoy-server":
+                return ("foreign-host", f"with requests {[l for l, _ in c['reqs']]} in flight the proxy connected to decoy server {x[1]}")
+        # the upstream is reached through loopback whatever name the configuration uses for it
+        obs = dict(obs, conns=[])
+        return super().oracle(c, obs)
+
+    def key(self, case, obs):
+        return "tls:" + super().key(self._concrete(case), obs)
 
 
 class Sequence(_Base):
@@ -796,7 +948,7 @@ class Sequence(_Base):
         return f"steps={len(steps)}:redirects={min(3, sum(1 for _, st, _ in steps if 30 <= st <= 39))}:asked-again-after-31={'y' if repeat else 'n'}:foreign-target={'y' if foreign else 'n'}:fwd={min(fwd, 4)}"
 
 
-FAMILIES = [Map(), Live(), Concurrent(), Sequence()]
+FAMILIES = [Map(), Live(), Concurrent(), Overlap(), Sequence()]
 
 
 def extract_extra():
